@@ -1,6 +1,16 @@
 /-
-  Reclass.Lemmas.Fuel — the fuel argument of the evaluator never changes an answer
-  (`fuel_mono`), and resolution state only grows (`depth_mono`).
+  Reclass.Lemmas.Fuel — facts about the fuel-indexed evaluator (`Model/Eval`, the 13-way
+  mutual block) used by property C08:
+
+  * unfolding equations (`interp_str`, `interpL_cons`, `tokResolve_ref`, …), all by `rfl`;
+  * `monoAt` / `X_fuel_mono` / `X_fuel_mono_le`: the amount of fuel never changes an answer;
+  * `growAt` / `depth_mono`: the resolution state only grows (depth, seen; `cur` unchanged);
+  * `interp_wholeRef`, `interpEs_ok_all`, `interpL_ok_all`, `interpL_of_all`: reference chains
+    and sibling isolation;
+  * `namespace Termination`: string-freeness and the size measure `sz`, outputs of `interpolate`
+    are string-free and never a layer list (`outAt`), re-interpolating string-free values never
+    grows them (`inAt`), the parser's fuel is sufficient (`parse_noFuel`), and every evaluator
+    call settles on a non-fuel outcome (`allConv`, `interp_terminates`).
 -/
 import Reclass.Model.Eval
 namespace Reclass
@@ -1067,5 +1077,1686 @@ theorem interpL_of_all {n : Nat} {root : Mapping} {st : RState} :
       have h0' := interp_fuel_mono_le (m := n + vs.length + 1) (by omega) _ _ _ h0 (by simp)
       simp only [Nat.add_zero, List.getElem_cons_zero] at h0'
       simp only [h0', hrest]
+
+/-! ## Termination
+
+Every evaluator call settles on a non-fuel outcome.  Measure: lexicographically
+(`maxDepth + 1 - st.depth`, token / value size) — every `Ref` resolution hands a strictly deeper
+state to everything it calls, everything else recurses on smaller tokens or values at the same
+depth — plus a separate size argument (`sz`) for the second pass of the `ValueList` arm, which
+re-interpolates a merge of already interpolated, hence string-free, values. -/
+
+namespace Termination
+
+mutual
+/-- No unparsed string at any position (layer lists may remain). -/
+def StrFree : Value → Prop
+  | .str _ => False
+  | .vl l => StrFreeL l
+  | .map es _ _ => StrFreeEs es
+  | .seq l => StrFreeL l
+  | _ => True
+def StrFreeL : List Value → Prop
+  | [] => True
+  | v :: vs => StrFree v ∧ StrFreeL vs
+def StrFreeEs : List (Key × Value) → Prop
+  | [] => True
+  | (_, v) :: es => StrFree v ∧ StrFreeEs es
+end
+
+mutual
+/-- Size measure under which merging and re-inserting never grow a value:
+scalars 1, sequence `1 + Σ`, mapping `1 + Σ (4 + sz v)`, layer list `2 + Σ (1 + sz l)`. -/
+def sz : Value → Nat
+  | .map es _ _ => 1 + szEs es
+  | .seq l => 1 + szL l
+  | .vl l => 2 + szVl l
+  | _ => 1
+def szL : List Value → Nat
+  | [] => 0
+  | v :: vs => sz v + szL vs
+def szVl : List Value → Nat
+  | [] => 0
+  | v :: vs => 1 + sz v + szVl vs
+def szEs : List (Key × Value) → Nat
+  | [] => 0
+  | (_, v) :: es => 4 + sz v + szEs es
+end
+
+theorem sz_pos (v : Value) : 1 ≤ sz v := by cases v <;> simp [sz] <;> omega
+
+theorem szVl_eq (l : List Value) : szVl l = l.length + szL l := by
+  induction l with
+  | nil => simp [szVl, szL]
+  | cons v vs ih => simp [szVl, szL, ih]; omega
+
+theorem szL_append (a b : List Value) : szL (a ++ b) = szL a + szL b := by
+  induction a with
+  | nil => simp [szL]
+  | cons v vs ih => simp [szL, ih]; omega
+
+theorem szVl_append (a b : List Value) : szVl (a ++ b) = szVl a + szVl b := by
+  induction a with
+  | nil => simp [szVl]
+  | cons v vs ih => simp [szVl, ih]; omega
+
+theorem szEs_append (a b : List (Key × Value)) : szEs (a ++ b) = szEs a + szEs b := by
+  induction a with
+  | nil => simp [szEs]
+  | cons kv es ih => obtain ⟨k, v⟩ := kv; simp [szEs, ih]; omega
+
+theorem strFreeL_append {a b : List Value} : StrFreeL (a ++ b) ↔ StrFreeL a ∧ StrFreeL b := by
+  induction a with
+  | nil => simp [StrFreeL]
+  | cons v vs ih => simp [StrFreeL, ih, and_assoc]
+
+theorem strFreeEs_append {a b : List (Key × Value)} : StrFreeEs (a ++ b) ↔ StrFreeEs a ∧ StrFreeEs b := by
+  induction a with
+  | nil => simp [StrFreeEs]
+  | cons kv es ih => obtain ⟨k, v⟩ := kv; simp [StrFreeEs, ih, and_assoc]
+
+theorem combine_good {old v : Value} (ho : StrFree old) (hv : StrFree v) :
+    StrFree (combine old v) ∧ sz (combine old v) ≤ sz old + sz v + 4 := by
+  cases old <;> cases v <;>
+    simp_all [combine, StrFree, StrFreeL, sz, szVl, szVl_append, strFreeL_append] <;> omega
+
+theorem lookup_strFree {k : Key} {es : List (Key × Value)} {old : Value}
+    (h : lookup k es = some old) (hes : StrFreeEs es) : StrFree old := by
+  induction es with
+  | nil => simp [lookup] at h
+  | cons kv es ih =>
+    obtain ⟨k', v'⟩ := kv
+    simp only [lookup] at h
+    simp only [StrFreeEs] at hes
+    by_cases hk : k' = k
+    · simp only [hk, if_true, Option.some.injEq] at h; exact h ▸ hes.1
+    · simp only [hk, if_false] at h; exact ih h hes.2
+
+theorem replaceVal_good {k : Key} {v old : Value} {es : List (Key × Value)}
+    (h : lookup k es = some old) (hes : StrFreeEs es) (hv : StrFree v) :
+    StrFreeEs (replaceVal k v es) ∧ szEs (replaceVal k v es) + sz old = szEs es + sz v := by
+  induction es with
+  | nil => simp [lookup] at h
+  | cons kv es ih =>
+    obtain ⟨k', v'⟩ := kv
+    simp only [lookup] at h
+    simp only [StrFreeEs] at hes
+    by_cases hk : k' = k
+    · simp only [hk, if_true, Option.some.injEq] at h
+      subst h
+      simp only [replaceVal, hk, if_true, StrFreeEs, szEs]
+      exact ⟨⟨hv, hes.2⟩, by omega⟩
+    · simp only [hk, if_false] at h
+      obtain ⟨h1, h2⟩ := ih h hes.2
+      simp only [replaceVal, hk, if_false, StrFreeEs, szEs]
+      exact ⟨⟨hes.1, h1⟩, by omega⟩
+
+theorem insertImpl_good {m m' : Mapping} {k : Key} {v : Value} {fc fo : Bool}
+    (h : m.insertImpl k v fc fo = .ok m') (hm : StrFreeEs m.es) (hv : StrFree v) :
+    StrFreeEs m'.es ∧ szEs m'.es ≤ szEs m.es + 4 + sz v := by
+  unfold Mapping.insertImpl at h
+  simp only at h
+  cases hl : lookup k.stripPrefix.1 m.es with
+  | none =>
+    simp only [hl, Except.ok.injEq] at h
+    subst h
+    simp only [strFreeEs_append, szEs_append, StrFreeEs, szEs]
+    exact ⟨⟨hm, hv, trivial⟩, by omega⟩
+  | some old =>
+    simp only [hl] at h
+    split at h
+    · simp at h
+    · simp only [Except.ok.injEq] at h
+      subst h
+      simp only
+      have hold := lookup_strFree hl hm
+      split
+      · obtain ⟨h1, h2⟩ := replaceVal_good hl hm hv
+        exact ⟨h1, by omega⟩
+      · obtain ⟨hc1, hc2⟩ := combine_good hold hv
+        obtain ⟨h1, h2⟩ := replaceVal_good hl hm hc1
+        exact ⟨h1, by omega⟩
+
+theorem mergeEntries_good {ock ook : List Key} : ∀ {es : List (Key × Value)} {m m' : Mapping},
+    m.mergeEntries ock ook es = .ok m' → StrFreeEs m.es → StrFreeEs es →
+    StrFreeEs m'.es ∧ szEs m'.es ≤ szEs m.es + szEs es := by
+  intro es
+  induction es with
+  | nil =>
+    intro m m' h hm _
+    simp only [Mapping.mergeEntries, Except.ok.injEq] at h
+    subst h; exact ⟨hm, by simp [szEs]⟩
+  | cons kv es ih =>
+    intro m m' h hm hes
+    obtain ⟨k, v⟩ := kv
+    simp only [Mapping.mergeEntries] at h
+    simp only [StrFreeEs] at hes
+    cases h1 : m.insertImpl k v (decide (k ∈ ock)) (decide (k ∈ ook)) with
+    | error e => simp [h1] at h
+    | ok m1 =>
+      simp only [h1] at h
+      obtain ⟨a1, a2⟩ := insertImpl_good h1 hm hes.1
+      obtain ⟨b1, b2⟩ := ih h a1 hes.2
+      exact ⟨b1, by simp only [szEs]; omega⟩
+
+theorem mergeNonVl_good {a b r : Value} {st : RState} (h : mergeNonVl a b st = .ok r)
+    (ha : StrFree a) (hb : StrFree b) : StrFree r ∧ sz r ≤ sz a + sz b := by
+  have hpa := sz_pos a
+  have hpb := sz_pos b
+  have scalar : ∀ a : Value, 1 ≤ sz a →
+      (if b.isMap || b.isSeq then (.error (.mergeConflict st.curKey b.kind a.kind) : R Value)
+        else .ok b) = .ok r → StrFree r ∧ sz r ≤ sz a + sz b := by
+    intro a hpa h
+    split at h
+    · simp at h
+    · simp only [Except.ok.injEq] at h; subst h; exact ⟨hb, by omega⟩
+  cases a with
+  | null => simp only [mergeNonVl, Except.ok.injEq] at h; subst h; exact ⟨hb, by omega⟩
+  | map es ck ok =>
+    cases b with
+    | map es' ck' ok' =>
+      simp only [mergeNonVl] at h
+      cases hm : Mapping.merge ⟨es, ck, ok⟩ ⟨es', ck', ok'⟩ with
+      | error e => simp [hm] at h
+      | ok m =>
+        simp only [hm, Except.ok.injEq] at h
+        subst h
+        unfold Mapping.merge at hm
+        obtain ⟨h1, h2⟩ := mergeEntries_good hm (by simpa [StrFree] using ha) (by simpa [StrFree] using hb)
+        simp only [Mapping.toValue, StrFree, sz] at h2 ⊢
+        exact ⟨h1, by omega⟩
+    | _ => simp [mergeNonVl] at h
+  | seq s =>
+    cases b with
+    | seq s' =>
+      simp only [mergeNonVl, Except.ok.injEq] at h
+      subst h
+      simp only [StrFree, sz, szL_append, strFreeL_append] at ha hb ⊢
+      exact ⟨⟨ha, hb⟩, by omega⟩
+    | _ => simp [mergeNonVl] at h
+  | str _ => simp [mergeNonVl] at h
+  | vl _ => simp [mergeNonVl] at h
+  | bool _ => simp only [mergeNonVl] at h; exact scalar _ hpa h
+  | num _ => simp only [mergeNonVl] at h; exact scalar _ hpa h
+  | lit _ => simp only [mergeNonVl] at h; exact scalar _ hpa h
+
+
+mutual
+theorem flat_good : ∀ (v : Value) (st : RState) (r : Value), flat v st = .ok r → StrFree v →
+    StrFree r ∧ sz r ≤ sz v
+  | .vl l, st, r, h, hv => by
+    simp only [flat] at h
+    obtain ⟨h1, h2⟩ := flatVl_good l .null st r h (by simpa [StrFree] using hv) (by simp [StrFree])
+    have := szVl_eq l
+    simp only [sz] at h2 ⊢
+    exact ⟨h1, by omega⟩
+  | .map es ck ok, st, r, h, hv => by
+    simp only [flat] at h
+    cases h1 : flatEs es ck ok st {} with
+    | error e => simp [h1] at h
+    | ok m =>
+      simp only [h1, Except.ok.injEq] at h
+      subst h
+      obtain ⟨a1, a2⟩ := flatEs_good es ck ok st {} m h1 (by simpa [StrFree] using hv) (by simp [StrFreeEs])
+      simp only [Mapping.toValue, StrFree, sz, szEs] at a2 ⊢
+      exact ⟨a1, by omega⟩
+  | .seq l, st, r, h, hv => by
+    simp only [flat] at h
+    cases h1 : flatL l st with
+    | error e => simp [h1] at h
+    | ok l' =>
+      simp only [h1, Except.ok.injEq] at h
+      subst h
+      obtain ⟨a1, a2⟩ := flatL_good l st l' h1 (by simpa [StrFree] using hv)
+      simp only [StrFree, sz] at ⊢
+      exact ⟨a1, by omega⟩
+  | .str _, st, r, h, _ => by simp [flat] at h
+  | .null, st, r, h, hv => by simp only [flat, Except.ok.injEq] at h; subst h; exact ⟨hv, Nat.le_refl _⟩
+  | .bool _, st, r, h, hv => by simp only [flat, Except.ok.injEq] at h; subst h; exact ⟨hv, Nat.le_refl _⟩
+  | .num _, st, r, h, hv => by simp only [flat, Except.ok.injEq] at h; subst h; exact ⟨hv, Nat.le_refl _⟩
+  | .lit _, st, r, h, hv => by simp only [flat, Except.ok.injEq] at h; subst h; exact ⟨hv, Nat.le_refl _⟩
+theorem flatVl_good : ∀ (l : List Value) (base : Value) (st : RState) (r : Value),
+    flatVl l base st = .ok r → StrFreeL l → StrFree base → StrFree r ∧ sz r ≤ sz base + szL l
+  | [], base, st, r, h, _, hb => by
+    simp only [flatVl, Except.ok.injEq] at h; subst h; exact ⟨hb, by simp [szL]⟩
+  | v :: rest, base, st, r, h, hl, hb => by
+    simp only [flatVl] at h
+    simp only [StrFreeL] at hl
+    cases h1 : mergeV base v st with
+    | error e => simp [h1] at h
+    | ok b =>
+      simp only [h1] at h
+      obtain ⟨a1, a2⟩ := mergeV_good base v st b h1 hb hl.1
+      obtain ⟨b1, b2⟩ := flatVl_good rest b st r h hl.2 a1
+      exact ⟨b1, by simp only [szL]; omega⟩
+theorem mergeV_good : ∀ (self other : Value) (st : RState) (r : Value),
+    mergeV self other st = .ok r → StrFree self → StrFree other → StrFree r ∧ sz r ≤ sz self + sz other
+  | self, .null, st, r, h, _, _ => by
+    simp only [mergeV, Except.ok.injEq] at h; subst h
+    have := sz_pos self
+    exact ⟨by simp [StrFree], by simp [sz]⟩
+  | self, .vl l, st, r, h, hs, ho => by
+    simp only [mergeV] at h
+    cases h1 : flatVl l .null st with
+    | error e => simp [h1] at h
+    | ok o =>
+      simp only [h1] at h
+      obtain ⟨a1, a2⟩ := flatVl_good l .null st o h1 (by simpa [StrFree] using ho) (by simp [StrFree])
+      obtain ⟨b1, b2⟩ := mergeNonVl_good h hs a1
+      have := szVl_eq l
+      simp only [sz] at a2 b2 ⊢
+      exact ⟨b1, by omega⟩
+  | self, .map es ck ok, st, r, h, hs, ho => by
+    simp only [mergeV] at h; exact mergeNonVl_good h hs ho
+  | self, .seq l, st, r, h, hs, ho => by
+    simp only [mergeV] at h; exact mergeNonVl_good h hs ho
+  | self, .str _, st, r, h, hs, ho => by
+    simp only [mergeV] at h; exact mergeNonVl_good h hs ho
+  | self, .bool _, st, r, h, hs, ho => by
+    simp only [mergeV] at h; exact mergeNonVl_good h hs ho
+  | self, .num _, st, r, h, hs, ho => by
+    simp only [mergeV] at h; exact mergeNonVl_good h hs ho
+  | self, .lit _, st, r, h, hs, ho => by
+    simp only [mergeV] at h; exact mergeNonVl_good h hs ho
+theorem flatL_good : ∀ (l : List Value) (st : RState) (r : List Value),
+    flatL l st = .ok r → StrFreeL l → StrFreeL r ∧ szL r ≤ szL l
+  | [], st, r, h, _ => by simp only [flatL, Except.ok.injEq] at h; subst h; simp [StrFreeL, szL]
+  | v :: vs, st, r, h, hl => by
+    simp only [flatL] at h
+    simp only [StrFreeL] at hl
+    cases h1 : flat v st with
+    | error e => simp [h1] at h
+    | ok x =>
+      simp only [h1] at h
+      cases h2 : flatL vs st with
+      | error e => simp [h2] at h
+      | ok xs =>
+        simp only [h2, Except.ok.injEq] at h
+        subst h
+        obtain ⟨a1, a2⟩ := flat_good v st x h1 hl.1
+        obtain ⟨b1, b2⟩ := flatL_good vs st xs h2 hl.2
+        exact ⟨⟨a1, b1⟩, by simp only [szL]; omega⟩
+theorem flatEs_good : ∀ (es : List (Key × Value)) (ck ok : List Key) (st : RState) (acc m : Mapping),
+    flatEs es ck ok st acc = .ok m → StrFreeEs es → StrFreeEs acc.es →
+    StrFreeEs m.es ∧ szEs m.es ≤ szEs acc.es + szEs es
+  | [], ck, ok, st, acc, m, h, _, ha => by
+    simp only [flatEs, Except.ok.injEq] at h; subst h; exact ⟨ha, by simp [szEs]⟩
+  | (k, v) :: rest, ck, ok, st, acc, m, h, hes, ha => by
+    simp only [flatEs] at h
+    simp only [StrFreeEs] at hes
+    cases h1 : flat v st with
+    | error e => simp [h1] at h
+    | ok v' =>
+      simp only [h1] at h
+      cases h2 : acc.insertImpl k v' (decide (k ∈ ck)) (decide (k ∈ ok)) with
+      | error e => simp [h2] at h
+      | ok acc' =>
+        simp only [h2] at h
+        obtain ⟨a1, a2⟩ := flat_good v st v' h1 hes.1
+        obtain ⟨b1, b2⟩ := insertImpl_good h2 ha a1
+        obtain ⟨c1, c2⟩ := flatEs_good rest ck ok st acc' m h hes.2 b1
+        exact ⟨c1, by simp only [szEs]; omega⟩
+end
+
+/-! ### The fuel-free helpers never report the fuel error -/
+
+theorem insertImpl_noFuel (m : Mapping) (k : Key) (v : Value) (fc fo : Bool) :
+    m.insertImpl k v fc fo ≠ .error .fuel := by
+  unfold Mapping.insertImpl
+  simp only
+  split
+  · simp
+  · split <;> simp
+
+theorem mergeEntries_noFuel (ock ook : List Key) : ∀ (es : List (Key × Value)) (m : Mapping),
+    m.mergeEntries ock ook es ≠ .error .fuel := by
+  intro es
+  induction es with
+  | nil => intro m; simp [Mapping.mergeEntries]
+  | cons kv es ih =>
+    intro m
+    obtain ⟨k, v⟩ := kv
+    simp only [Mapping.mergeEntries]
+    cases h1 : m.insertImpl k v (decide (k ∈ ock)) (decide (k ∈ ook)) with
+    | error e =>
+      intro h
+      simp only [Except.error.injEq] at h
+      exact insertImpl_noFuel _ _ _ _ _ (h ▸ h1)
+    | ok m1 => exact ih m1
+
+theorem mergeNonVl_noFuel (a b : Value) (st : RState) : mergeNonVl a b st ≠ .error .fuel := by
+  cases a with
+  | null => simp [mergeNonVl]
+  | map es ck ok =>
+    cases b with
+    | map es' ck' ok' =>
+      simp only [mergeNonVl]
+      cases h : Mapping.merge ⟨es, ck, ok⟩ ⟨es', ck', ok'⟩ with
+      | error e =>
+        intro hc
+        simp only [Except.error.injEq] at hc
+        exact mergeEntries_noFuel _ _ _ _ (hc ▸ h)
+      | ok m => simp
+    | _ => simp [mergeNonVl]
+  | seq s => cases b <;> simp [mergeNonVl]
+  | str _ => simp [mergeNonVl]
+  | vl _ => simp [mergeNonVl]
+  | bool _ => simp only [mergeNonVl]; split <;> simp
+  | num _ => simp only [mergeNonVl]; split <;> simp
+  | lit _ => simp only [mergeNonVl]; split <;> simp
+
+mutual
+theorem flat_noFuel : ∀ (v : Value) (st : RState), flat v st ≠ .error .fuel
+  | .vl l, st => by simp only [flat]; exact flatVl_noFuel l .null st
+  | .map es ck ok, st => by
+    simp only [flat]
+    cases h : flatEs es ck ok st {} with
+    | error e =>
+      intro hc; simp only [Except.error.injEq] at hc
+      exact flatEs_noFuel es ck ok st {} (hc ▸ h)
+    | ok m => simp
+  | .seq l, st => by
+    simp only [flat]
+    cases h : flatL l st with
+    | error e =>
+      intro hc; simp only [Except.error.injEq] at hc
+      exact flatL_noFuel l st (hc ▸ h)
+    | ok m => simp
+  | .str _, st => by simp [flat]
+  | .null, st => by simp [flat]
+  | .bool _, st => by simp [flat]
+  | .num _, st => by simp [flat]
+  | .lit _, st => by simp [flat]
+theorem flatVl_noFuel : ∀ (l : List Value) (base : Value) (st : RState), flatVl l base st ≠ .error .fuel
+  | [], base, st => by simp [flatVl]
+  | v :: rest, base, st => by
+    simp only [flatVl]
+    cases h : mergeV base v st with
+    | error e =>
+      intro hc; simp only [Except.error.injEq] at hc
+      exact mergeV_noFuel base v st (hc ▸ h)
+    | ok b => exact flatVl_noFuel rest b st
+theorem mergeV_noFuel : ∀ (self other : Value) (st : RState), mergeV self other st ≠ .error .fuel
+  | self, .null, st => by simp [mergeV]
+  | self, .vl l, st => by
+    simp only [mergeV]
+    cases h : flatVl l .null st with
+    | error e =>
+      intro hc; simp only [Except.error.injEq] at hc
+      exact flatVl_noFuel l .null st (hc ▸ h)
+    | ok o => exact mergeNonVl_noFuel _ _ _
+  | self, .map es ck ok, st => by simp only [mergeV]; exact mergeNonVl_noFuel _ _ _
+  | self, .seq l, st => by simp only [mergeV]; exact mergeNonVl_noFuel _ _ _
+  | self, .str _, st => by simp only [mergeV]; exact mergeNonVl_noFuel _ _ _
+  | self, .bool _, st => by simp only [mergeV]; exact mergeNonVl_noFuel _ _ _
+  | self, .num _, st => by simp only [mergeV]; exact mergeNonVl_noFuel _ _ _
+  | self, .lit _, st => by simp only [mergeV]; exact mergeNonVl_noFuel _ _ _
+theorem flatL_noFuel : ∀ (l : List Value) (st : RState), flatL l st ≠ .error .fuel
+  | [], st => by simp [flatL]
+  | v :: vs, st => by
+    simp only [flatL]
+    cases h1 : flat v st with
+    | error e =>
+      intro hc; simp only [Except.error.injEq] at hc
+      exact flat_noFuel v st (hc ▸ h1)
+    | ok x =>
+      dsimp only
+      cases h2 : flatL vs st with
+      | error e =>
+        intro hc; simp only [Except.error.injEq] at hc
+        exact flatL_noFuel vs st (hc ▸ h2)
+      | ok xs => simp
+theorem flatEs_noFuel : ∀ (es : List (Key × Value)) (ck ok : List Key) (st : RState) (acc : Mapping),
+    flatEs es ck ok st acc ≠ .error .fuel
+  | [], ck, ok, st, acc => by simp [flatEs]
+  | (k, v) :: rest, ck, ok, st, acc => by
+    simp only [flatEs]
+    cases h1 : flat v st with
+    | error e =>
+      intro hc; simp only [Except.error.injEq] at hc
+      exact flat_noFuel v st (hc ▸ h1)
+    | ok v' =>
+      dsimp only
+      cases h2 : acc.insertImpl k v' (decide (k ∈ ck)) (decide (k ∈ ok)) with
+      | error e =>
+        intro hc; simp only [Except.error.injEq] at hc
+        exact insertImpl_noFuel _ _ _ _ _ (hc ▸ h2)
+      | ok acc' => exact flatEs_noFuel rest ck ok st acc'
+end
+
+mutual
+theorem jsonOf_noFuel : ∀ (v : Value), jsonOf v ≠ .error .fuel
+  | .null => by simp [jsonOf]
+  | .bool true => by simp [jsonOf]
+  | .bool false => by simp [jsonOf]
+  | .num _ => by simp [jsonOf]
+  | .str _ => by simp [jsonOf]
+  | .lit _ => by simp [jsonOf]
+  | .seq l => by
+    simp only [jsonOf]
+    cases h : jsonOfL l with
+    | error e =>
+      intro hc; simp only [Except.error.injEq] at hc
+      exact jsonOfL_noFuel l (hc ▸ h)
+    | ok xs => simp
+  | .map es _ _ => by
+    simp only [jsonOf]
+    cases h : jsonOfEs es [] with
+    | error e =>
+      intro hc; simp only [Except.error.injEq] at hc
+      exact jsonOfEs_noFuel es [] (hc ▸ h)
+    | ok xs => simp
+  | .vl _ => by simp [jsonOf]
+theorem jsonOfL_noFuel : ∀ (l : List Value), jsonOfL l ≠ .error .fuel
+  | [] => by simp [jsonOfL]
+  | v :: vs => by
+    simp only [jsonOfL]
+    cases h1 : jsonOf v with
+    | error e =>
+      intro hc; simp only [Except.error.injEq] at hc
+      exact jsonOf_noFuel v (hc ▸ h1)
+    | ok x =>
+      dsimp only
+      cases h2 : jsonOfL vs with
+      | error e =>
+        intro hc; simp only [Except.error.injEq] at hc
+        exact jsonOfL_noFuel vs (hc ▸ h2)
+      | ok xs => simp
+theorem jsonOfEs_noFuel : ∀ (es : List (Key × Value)) (acc : List (Str × Str)),
+    jsonOfEs es acc ≠ .error .fuel
+  | [], acc => by simp [jsonOfEs]
+  | (k, v) :: rest, acc => by
+    simp only [jsonOfEs]
+    cases h1 : jsonOf v with
+    | error e =>
+      intro hc; simp only [Except.error.injEq] at hc
+      exact jsonOf_noFuel v (hc ▸ h1)
+    | ok x => exact jsonOfEs_noFuel rest _
+end
+
+theorem rawString_noFuel (v : Value) : rawString v ≠ .error .fuel := by
+  cases v with
+  | bool b => cases b <;> simp [rawString]
+  | map es ck ok => simp only [rawString]; exact jsonOf_noFuel _
+  | seq l => simp only [rawString]; exact jsonOf_noFuel _
+  | _ => simp [rawString]
+
+/-- What `interpolate` returns never contains an unparsed string and is not a layer list. -/
+structure OutAt (n : Nat) : Prop where
+  interp : ∀ root v st x st', interp n root v st = .ok (x, st') → StrFree x ∧ x.isVl = false
+  interpL : ∀ root l idx st xs, interpL n root l idx st = .ok xs → StrFreeL xs
+  interpEs : ∀ root es ck ok st acc m, interpEs n root es ck ok st acc = .ok m →
+    StrFreeEs acc.es → StrFreeEs m.es
+  interpVl : ∀ root l r st r', interpVl n root l r st = .ok r' → StrFree r → StrFree r'
+  tokRender : ∀ root t st x st', tokRender n root t st = .ok (x, st') → StrFree x ∧ x.isVl = false
+
+theorem outAt_zero : OutAt 0 := by
+  constructor <;> intros <;> simp_all [interp, interpL, interpEs, interpVl, tokRender]
+
+theorem outAt_succ {n : Nat} (ih : OutAt n) : OutAt (n+1) := by
+  constructor
+  · intro root v st x st' h
+    cases v with
+    | str s =>
+      rw [interp_str] at h
+      cases hp : Token.parse s with
+      | error e => simp [hp] at h
+      | ok o =>
+        cases o with
+        | none =>
+          simp only [hp, Except.ok.injEq, Prod.mk.injEq] at h
+          rw [← h.1]; simp [StrFree, Value.isVl]
+        | some t => simp only [hp] at h; exact ih.tokRender _ _ _ _ _ h
+    | map es ck ok =>
+      rw [interp_map] at h
+      cases hc : interpEs n root es ck ok st {} with
+      | error e => simp [hc] at h
+      | ok m =>
+        simp only [hc, Except.ok.injEq, Prod.mk.injEq] at h
+        rw [← h.1]
+        exact ⟨by simpa [Mapping.toValue, StrFree] using ih.interpEs _ _ _ _ _ _ _ hc (by simp [StrFreeEs]),
+          rfl⟩
+    | seq l =>
+      rw [interp_seq] at h
+      cases hc : interpL n root l 0 st with
+      | error e => simp [hc] at h
+      | ok m =>
+        simp only [hc, Except.ok.injEq, Prod.mk.injEq] at h
+        rw [← h.1]
+        exact ⟨by simpa [StrFree] using ih.interpL _ _ _ _ _ hc, rfl⟩
+    | vl l =>
+      rw [interp_vl] at h
+      cases hc : interpVl n root l .null st with
+      | error e => simp [hc] at h
+      | ok r => simp only [hc] at h; exact ih.interp _ _ _ _ _ h
+    | null => simp only [interp, Except.ok.injEq, Prod.mk.injEq] at h; rw [← h.1]; simp [StrFree, Value.isVl]
+    | bool b => simp only [interp, Except.ok.injEq, Prod.mk.injEq] at h; rw [← h.1]; simp [StrFree, Value.isVl]
+    | num b => simp only [interp, Except.ok.injEq, Prod.mk.injEq] at h; rw [← h.1]; simp [StrFree, Value.isVl]
+    | lit b => simp only [interp, Except.ok.injEq, Prod.mk.injEq] at h; rw [← h.1]; simp [StrFree, Value.isVl]
+  · intro root l idx st xs h
+    cases l with
+    | nil => simp only [interpL_nil, Except.ok.injEq] at h; subst h; simp [StrFreeL]
+    | cons v vs =>
+      rw [interpL_cons] at h
+      rcases hi : interp n root v (st.pushListIndex idx) with e | ⟨x, st'⟩
+      · simp [hi] at h
+      · simp only [hi] at h
+        cases hr : interpL n root vs (idx + 1) st with
+        | error e => simp [hr] at h
+        | ok ys =>
+          simp only [hr, Except.ok.injEq] at h
+          subst h
+          exact ⟨(ih.interp _ _ _ _ _ hi).1, ih.interpL _ _ _ _ _ hr⟩
+  · intro root es ck ok st acc m h hacc
+    cases es with
+    | nil => simp only [interpEs_nil, Except.ok.injEq] at h; subst h; exact hacc
+    | cons kv rest =>
+      obtain ⟨k, v⟩ := kv
+      rw [interpEs_cons] at h
+      rcases hi : interp n root v (st.pushMappingKey k) with e | ⟨v', st'⟩
+      · simp [hi] at h
+      · simp only [hi] at h
+        cases hfl : flat v' st' with
+        | error e => simp [hfl] at h
+        | ok v'' =>
+          simp only [hfl] at h
+          cases hins : acc.insertImpl k v'' (decide (k ∈ ck)) (decide (k ∈ ok)) with
+          | error e => simp [hins] at h
+          | ok acc' =>
+            simp only [hins] at h
+            have h1 := (ih.interp _ _ _ _ _ hi).1
+            have h2 := (flat_good _ _ _ hfl h1).1
+            exact ih.interpEs _ _ _ _ _ _ _ h (insertImpl_good hins hacc h2).1
+  · intro root l r st r' h hr
+    cases l with
+    | nil => simp only [interpVl_nil, Except.ok.injEq] at h; subst h; exact hr
+    | cons v vs =>
+      rw [interpVl_cons] at h
+      rcases hi : interp n root v st with e | ⟨x, st'⟩
+      · simp [hi] at h
+      · simp only [hi] at h
+        cases hm : mergeV r x st' with
+        | error e => simp [hm] at h
+        | ok r1 =>
+          simp only [hm] at h
+          exact ih.interpVl _ _ _ _ _ h (mergeV_good _ _ _ _ hm hr (ih.interp _ _ _ _ _ hi).1).1
+  · intro root t st x st' h
+    rw [tokRender_succ] at h
+    rcases hc : tokResolve n root t st with e | ⟨v, st1⟩
+    · simp [hc] at h
+    · simp only [hc] at h
+      cases t with
+      | ref parts => simp only at h; exact ih.interp _ _ _ _ _ h
+      | lit s =>
+        simp only at h
+        cases hr : rawString v with
+        | error e => simp [hr] at h
+        | ok s' =>
+          simp only [hr, Except.ok.injEq, Prod.mk.injEq] at h; rw [← h.1]; simp [StrFree, Value.isVl]
+      | combined ts =>
+        simp only at h
+        cases hr : rawString v with
+        | error e => simp [hr] at h
+        | ok s' =>
+          simp only [hr, Except.ok.injEq, Prod.mk.injEq] at h; rw [← h.1]; simp [StrFree, Value.isVl]
+
+theorem outAt : ∀ n, OutAt n := by
+  intro n
+  induction n with
+  | zero => exact outAt_zero
+  | succ n ih => exact outAt_succ ih
+
+theorem strFree_isStr {x : Value} (h : StrFree x) : x.isStr = false := by
+  cases x <;> simp_all [StrFree, Value.isStr]
+
+/-- On string-free input `interpolate` never grows the value (and leaves the state alone). -/
+structure InAt (n : Nat) : Prop where
+  interp : ∀ root v st x st', interp n root v st = .ok (x, st') → StrFree v → sz x ≤ sz v
+  interpL : ∀ root l idx st xs, interpL n root l idx st = .ok xs → StrFreeL l → szL xs ≤ szL l
+  interpEs : ∀ root es ck ok st acc m, interpEs n root es ck ok st acc = .ok m →
+    StrFreeEs es → StrFreeEs acc.es → szEs m.es ≤ szEs acc.es + szEs es
+  interpVl : ∀ root l r st r', interpVl n root l r st = .ok r' → StrFreeL l → StrFree r →
+    sz r' ≤ sz r + szL l
+
+theorem inAt_zero : InAt 0 := by
+  constructor <;> intros <;> simp_all [interp, interpL, interpEs, interpVl]
+
+theorem inAt_succ {n : Nat} (ih : InAt n) : InAt (n+1) := by
+  have out := outAt n
+  constructor
+  · intro root v st x st' h hv
+    cases v with
+    | str s => simp [StrFree] at hv
+    | map es ck ok =>
+      rw [interp_map] at h
+      cases hc : interpEs n root es ck ok st {} with
+      | error e => simp [hc] at h
+      | ok m =>
+        simp only [hc, Except.ok.injEq, Prod.mk.injEq] at h
+        rw [← h.1]
+        have := ih.interpEs _ _ _ _ _ _ _ hc (by simpa [StrFree] using hv) (by simp [StrFreeEs])
+        simp only [Mapping.toValue, sz, szEs] at this ⊢
+        omega
+    | seq l =>
+      rw [interp_seq] at h
+      cases hc : interpL n root l 0 st with
+      | error e => simp [hc] at h
+      | ok m =>
+        simp only [hc, Except.ok.injEq, Prod.mk.injEq] at h
+        rw [← h.1]
+        have := ih.interpL _ _ _ _ _ hc (by simpa [StrFree] using hv)
+        simp only [sz]; omega
+    | vl l =>
+      rw [interp_vl] at h
+      cases hc : interpVl n root l .null st with
+      | error e => simp [hc] at h
+      | ok r =>
+        simp only [hc] at h
+        have hl : StrFreeL l := by simpa [StrFree] using hv
+        have h1 := ih.interpVl _ _ _ _ _ hc hl (by simp [StrFree])
+        have h2 := out.interpVl _ _ _ _ _ hc (by simp [StrFree])
+        have h3 := ih.interp _ _ _ _ _ h h2
+        have := szVl_eq l
+        simp only [sz] at h1 ⊢
+        omega
+    | null => simp only [interp, Except.ok.injEq, Prod.mk.injEq] at h; rw [← h.1]; exact Nat.le_refl _
+    | bool b => simp only [interp, Except.ok.injEq, Prod.mk.injEq] at h; rw [← h.1]; exact Nat.le_refl _
+    | num b => simp only [interp, Except.ok.injEq, Prod.mk.injEq] at h; rw [← h.1]; exact Nat.le_refl _
+    | lit b => simp only [interp, Except.ok.injEq, Prod.mk.injEq] at h; rw [← h.1]; exact Nat.le_refl _
+  · intro root l idx st xs h hl
+    cases l with
+    | nil => simp only [interpL_nil, Except.ok.injEq] at h; subst h; simp [szL]
+    | cons v vs =>
+      rw [interpL_cons] at h
+      simp only [StrFreeL] at hl
+      rcases hi : interp n root v (st.pushListIndex idx) with e | ⟨x, st'⟩
+      · simp [hi] at h
+      · simp only [hi] at h
+        cases hr : interpL n root vs (idx + 1) st with
+        | error e => simp [hr] at h
+        | ok ys =>
+          simp only [hr, Except.ok.injEq] at h
+          subst h
+          have h1 := ih.interp _ _ _ _ _ hi hl.1
+          have h2 := ih.interpL _ _ _ _ _ hr hl.2
+          simp only [szL]; omega
+  · intro root es ck ok st acc m h hes hacc
+    cases es with
+    | nil => simp only [interpEs_nil, Except.ok.injEq] at h; subst h; simp [szEs]
+    | cons kv rest =>
+      obtain ⟨k, v⟩ := kv
+      rw [interpEs_cons] at h
+      simp only [StrFreeEs] at hes
+      rcases hi : interp n root v (st.pushMappingKey k) with e | ⟨v', st'⟩
+      · simp [hi] at h
+      · simp only [hi] at h
+        cases hfl : flat v' st' with
+        | error e => simp [hfl] at h
+        | ok v'' =>
+          simp only [hfl] at h
+          cases hins : acc.insertImpl k v'' (decide (k ∈ ck)) (decide (k ∈ ok)) with
+          | error e => simp [hins] at h
+          | ok acc' =>
+            simp only [hins] at h
+            have h0 := ih.interp _ _ _ _ _ hi hes.1
+            have h1 := (out.interp _ _ _ _ _ hi).1
+            obtain ⟨f1, f2⟩ := flat_good _ _ _ hfl h1
+            obtain ⟨i1, i2⟩ := insertImpl_good hins hacc f1
+            have := ih.interpEs _ _ _ _ _ _ _ h hes.2 i1
+            simp only [szEs]; omega
+  · intro root l r st r' h hl hr
+    cases l with
+    | nil => simp only [interpVl_nil, Except.ok.injEq] at h; subst h; simp [szL]
+    | cons v vs =>
+      rw [interpVl_cons] at h
+      simp only [StrFreeL] at hl
+      rcases hi : interp n root v st with e | ⟨x, st'⟩
+      · simp [hi] at h
+      · simp only [hi] at h
+        cases hm : mergeV r x st' with
+        | error e => simp [hm] at h
+        | ok r1 =>
+          simp only [hm] at h
+          have h0 := ih.interp _ _ _ _ _ hi hl.1
+          have h1 := (out.interp _ _ _ _ _ hi).1
+          obtain ⟨m1, m2⟩ := mergeV_good _ _ _ _ hm hr h1
+          have := ih.interpVl _ _ _ _ _ h hl.2 m1
+          simp only [szL]; omega
+
+theorem inAt : ∀ n, InAt n := by
+  intro n
+  induction n with
+  | zero => exact inAt_zero
+  | succ n ih => exact inAt_succ ih
+
+/-- The fuel-indexed computation `f` settles on a non-fuel outcome. -/
+def Conv {α : Type} (f : Nat → R α) : Prop :=
+  ∃ N r, r ≠ .error .fuel ∧ ∀ n, N ≤ n → f n = r
+
+theorem conv_intro {α : Type} {f : Nat → R α} (N : Nat) (r : R α)
+    (h : ∀ m, N ≤ m → f (m+1) = r) (hne : r ≠ .error .fuel) : Conv f :=
+  ⟨N+1, r, hne, fun n hn => by
+    obtain ⟨m, rfl⟩ : ∃ m, n = m + 1 := ⟨n - 1, by omega⟩
+    exact h m (by omega)⟩
+
+theorem conv_of_ne {α : Type} {f : Nat → R α}
+    (mono : ∀ n, f n ≠ .error .fuel → f (n+1) = f n) {n : Nat} (h : f n ≠ .error .fuel) : Conv f :=
+  ⟨n, f n, h, fun _ hm => mono_le_of_step f mono hm h⟩
+
+theorem Conv.exists_ne {α : Type} {f : Nat → R α} (h : Conv f) : ∃ n, f n ≠ .error .fuel := by
+  obtain ⟨N, r, hne, c⟩ := h
+  exact ⟨N, by rw [c N (Nat.le_refl _)]; exact hne⟩
+
+theorem err_ne {α β : Type} {e : Err} (h : (.error e : R α) ≠ .error .fuel) :
+    (.error e : R β) ≠ .error .fuel := by
+  intro h'; apply h; cases h'; rfl
+
+theorem err_ne_of {α β : Type} {x : R α} {e : Err} (hx : x ≠ .error .fuel) (h : x = .error e) :
+    (.error e : R β) ≠ .error .fuel := by
+  intro h'; apply hx; cases h'; exact h
+
+/-! ### List-level composition (generic) -/
+
+theorem pushListIndex_depth (st : RState) (idx : Nat) : (st.pushListIndex idx).depth = st.depth := by
+  unfold RState.pushListIndex; split <;> rfl
+
+theorem convL {root : Mapping} {st : RState} : ∀ (l : List Value),
+    (∀ v, v ∈ l → ∀ st', st'.depth = st.depth → Conv (fun n => interp n root v st')) →
+    ∀ idx, Conv (fun n => interpL n root l idx st) := by
+  intro l
+  induction l with
+  | nil => intro _ idx; exact conv_intro 0 (.ok []) (fun m _ => rfl) (by simp)
+  | cons v vs ih =>
+    intro hv idx
+    obtain ⟨N1, r1, hne1, c1⟩ := hv v (by simp) (st.pushListIndex idx) (pushListIndex_depth _ _)
+    dsimp only at c1
+    rcases r1 with e | ⟨x, s⟩
+    · refine conv_intro N1 (.error e) (fun m hm => ?_) (err_ne hne1)
+      rw [interpL_cons, c1 m hm]
+    · obtain ⟨N2, r2, hne2, c2⟩ := ih (fun w hw => hv w (List.mem_cons_of_mem _ hw)) (idx + 1)
+      dsimp only at c2
+      rcases r2 with e | xs
+      · refine conv_intro (N1+N2) (.error e) (fun m hm => ?_) hne2
+        rw [interpL_cons, c1 m (by omega), c2 m (by omega)]
+      · refine conv_intro (N1+N2) (.ok (x :: xs)) (fun m hm => ?_) (by simp)
+        rw [interpL_cons, c1 m (by omega), c2 m (by omega)]
+
+theorem convEs {root : Mapping} {ck ok : List Key} {st : RState} : ∀ (es : List (Key × Value)),
+    (∀ k v, (k, v) ∈ es → ∀ st', st'.depth = st.depth → Conv (fun n => interp n root v st')) →
+    ∀ acc, Conv (fun n => interpEs n root es ck ok st acc) := by
+  intro es
+  induction es with
+  | nil => intro _ acc; exact conv_intro 0 (.ok acc) (fun m _ => rfl) (by simp)
+  | cons kv rest ih =>
+    intro hv acc
+    obtain ⟨k, v⟩ := kv
+    obtain ⟨N1, r1, hne1, c1⟩ := hv k v (by simp) (st.pushMappingKey k) rfl
+    dsimp only at c1
+    rcases r1 with e | ⟨v', st'⟩
+    · refine conv_intro N1 (.error e) (fun m hm => ?_) (err_ne hne1)
+      rw [interpEs_cons, c1 m hm]
+    · cases hfl : flat v' st' with
+      | error e =>
+        refine conv_intro N1 (.error e) (fun m hm => ?_) (err_ne_of (flat_noFuel _ _) hfl)
+        rw [interpEs_cons, c1 m hm]; simp only [hfl]
+      | ok v'' =>
+        cases hins : acc.insertImpl k v'' (decide (k ∈ ck)) (decide (k ∈ ok)) with
+        | error e =>
+          refine conv_intro N1 (.error e) (fun m hm => ?_) (err_ne_of (insertImpl_noFuel _ _ _ _ _) hins)
+          rw [interpEs_cons, c1 m hm]; simp only [hfl, hins]
+        | ok acc' =>
+          obtain ⟨N2, r2, hne2, c2⟩ := ih (fun k' w hw => hv k' w (List.mem_cons_of_mem _ hw)) acc'
+          dsimp only at c2
+          refine conv_intro (N1+N2) r2 (fun m hm => ?_) hne2
+          rw [interpEs_cons, c1 m (by omega)]; simp only [hfl, hins]
+          exact c2 m (by omega)
+
+theorem convVl {root : Mapping} {st : RState} : ∀ (l : List Value),
+    (∀ v, v ∈ l → Conv (fun n => interp n root v st)) →
+    ∀ r, Conv (fun n => interpVl n root l r st) := by
+  intro l
+  induction l with
+  | nil => intro _ r; exact conv_intro 0 (.ok r) (fun m _ => rfl) (by simp)
+  | cons v vs ih =>
+    intro hv r
+    obtain ⟨N1, r1, hne1, c1⟩ := hv v (by simp)
+    dsimp only at c1
+    rcases r1 with e | ⟨x, st'⟩
+    · refine conv_intro N1 (.error e) (fun m hm => ?_) (err_ne hne1)
+      rw [interpVl_cons, c1 m hm]
+    · cases hm : mergeV r x st' with
+      | error e =>
+        refine conv_intro N1 (.error e) (fun m hm' => ?_) (err_ne_of (mergeV_noFuel _ _ _) hm)
+        rw [interpVl_cons, c1 m hm']; simp only [hm]
+      | ok r' =>
+        obtain ⟨N2, r2, hne2, c2⟩ := ih (fun w hw => hv w (List.mem_cons_of_mem _ hw)) r'
+        dsimp only at c2
+        refine conv_intro (N1+N2) r2 (fun m hm' => ?_) hne2
+        rw [interpVl_cons, c1 m (by omega)]; simp only [hm]
+        exact c2 m (by omega)
+
+theorem convLayers {root : Mapping} {st : RState} : ∀ (l : List Value),
+    (∀ v, v ∈ l → Conv (fun n => interp n root v st)) →
+    Conv (fun n => layersStr n root l st) := by
+  intro l
+  induction l with
+  | nil => intro _; exact conv_intro 0 (.ok []) (fun m _ => rfl) (by simp)
+  | cons v vs ih =>
+    intro hv
+    obtain ⟨N2, r2, hne2, c2⟩ := ih (fun w hw => hv w (List.mem_cons_of_mem _ hw))
+    dsimp only at c2
+    by_cases hs : v.isStr = true
+    · obtain ⟨N1, r1, hne1, c1⟩ := hv v (by simp)
+      dsimp only at c1
+      rcases r1 with e | ⟨x, st'⟩
+      · refine conv_intro N1 (.error e) (fun m hm => ?_) (err_ne hne1)
+        rw [layersStr_cons, c1 m hm]; simp only [hs, if_true]
+      · rcases r2 with e | xs
+        · refine conv_intro (N1+N2) (.error e) (fun m hm => ?_) hne2
+          rw [layersStr_cons, c1 m (by omega), c2 m (by omega)]; simp only [hs, if_true]
+        · refine conv_intro (N1+N2) (.ok (x :: xs)) (fun m hm => ?_) (by simp)
+          rw [layersStr_cons, c1 m (by omega), c2 m (by omega)]; simp only [hs, if_true]
+    · have hs' : v.isStr = false := by simpa using hs
+      rcases r2 with e | xs
+      · refine conv_intro N2 (.error e) (fun m hm => ?_) hne2
+        rw [layersStr_cons, c2 m (by omega)]; simp only [hs', Bool.false_eq_true, if_false]
+      · refine conv_intro N2 (.ok (v :: xs)) (fun m hm => ?_) (by simp)
+        rw [layersStr_cons, c2 m (by omega)]; simp only [hs', Bool.false_eq_true, if_false]
+
+/-! ### Size facts about members -/
+
+theorem mem_szL {v : Value} {l : List Value} (h : v ∈ l) : sz v ≤ szL l := by
+  induction l with
+  | nil => simp at h
+  | cons w ws ih =>
+    simp only [szL]
+    rcases List.mem_cons.1 h with rfl | h'
+    · omega
+    · have := ih h'; omega
+
+theorem mem_strFreeL {v : Value} {l : List Value} (h : v ∈ l) (hl : StrFreeL l) : StrFree v := by
+  induction l with
+  | nil => simp at h
+  | cons w ws ih =>
+    simp only [StrFreeL] at hl
+    rcases List.mem_cons.1 h with rfl | h'
+    · exact hl.1
+    · exact ih h' hl.2
+
+theorem mem_szEs {k : Key} {v : Value} {es : List (Key × Value)} (h : (k, v) ∈ es) :
+    sz v + 4 ≤ szEs es := by
+  induction es with
+  | nil => simp at h
+  | cons w ws ih =>
+    obtain ⟨k', v'⟩ := w
+    simp only [szEs]
+    rcases List.mem_cons.1 h with heq | h'
+    · simp only [Prod.mk.injEq] at heq; obtain ⟨_, rfl⟩ := heq; omega
+    · have := ih h'; omega
+
+theorem mem_strFreeEs {k : Key} {v : Value} {es : List (Key × Value)} (h : (k, v) ∈ es)
+    (hl : StrFreeEs es) : StrFree v := by
+  induction es with
+  | nil => simp at h
+  | cons w ws ih =>
+    obtain ⟨k', v'⟩ := w
+    simp only [StrFreeEs] at hl
+    rcases List.mem_cons.1 h with heq | h'
+    · simp only [Prod.mk.injEq] at heq; obtain ⟨_, rfl⟩ := heq; exact hl.1
+    · exact ih h' hl.2
+
+/-! ### String-free values: the second pass of the `ValueList` arm terminates -/
+
+theorem conv_strFree (root : Mapping) : ∀ (b : Nat) (v : Value), sz v ≤ b → StrFree v →
+    ∀ st, Conv (fun n => interp n root v st) := by
+  intro b
+  induction b with
+  | zero => intro v hb; have := sz_pos v; omega
+  | succ b ih =>
+    intro v hb hv st
+    cases v with
+    | str s => simp [StrFree] at hv
+    | null => exact conv_intro 0 (.ok (.null, st)) (fun m _ => rfl) (by simp)
+    | bool x => exact conv_intro 0 (.ok (.bool x, st)) (fun m _ => rfl) (by simp)
+    | num x => exact conv_intro 0 (.ok (.num x, st)) (fun m _ => rfl) (by simp)
+    | lit x => exact conv_intro 0 (.ok (.lit x, st)) (fun m _ => rfl) (by simp)
+    | map es ck ok =>
+      simp only [sz] at hb
+      simp only [StrFree] at hv
+      obtain ⟨N1, r1, hne1, c1⟩ := convEs (root := root) (ck := ck) (ok := ok) (st := st) es
+        (fun k w hw st' _ => ih w (by have := mem_szEs hw; omega) (mem_strFreeEs hw hv) st') {}
+      dsimp only at c1
+      rcases r1 with e | m
+      · refine conv_intro N1 (.error e) (fun m hm => ?_) (err_ne hne1)
+        rw [interp_map, c1 m hm]
+      · refine conv_intro N1 (.ok (m.toValue, st)) (fun m hm => ?_) (by simp)
+        rw [interp_map, c1 m hm]
+    | seq l =>
+      simp only [sz] at hb
+      simp only [StrFree] at hv
+      obtain ⟨N1, r1, hne1, c1⟩ := convL (root := root) (st := st) l
+        (fun w hw st' _ => ih w (by have := mem_szL hw; omega) (mem_strFreeL hw hv) st') 0
+      dsimp only at c1
+      rcases r1 with e | l'
+      · refine conv_intro N1 (.error e) (fun m hm => ?_) (err_ne hne1)
+        rw [interp_seq, c1 m hm]
+      · refine conv_intro N1 (.ok (.seq l', st)) (fun m hm => ?_) (by simp)
+        rw [interp_seq, c1 m hm]
+    | vl l =>
+      simp only [sz] at hb
+      simp only [StrFree] at hv
+      have hlen := szVl_eq l
+      obtain ⟨N1, r1, hne1, c1⟩ := convVl (root := root) (st := st) l
+        (fun w hw => ih w (by have := mem_szL hw; omega) (mem_strFreeL hw hv) st) .null
+      dsimp only at c1
+      rcases r1 with e | r
+      · refine conv_intro N1 (.error e) (fun m hm => ?_) (err_ne hne1)
+        rw [interp_vl, c1 m hm]
+      · have hc := c1 N1 (Nat.le_refl _)
+        have h1 := (outAt N1).interpVl _ _ _ _ _ hc (by simp [StrFree])
+        have h2 := (inAt N1).interpVl _ _ _ _ _ hc hv (by simp [StrFree])
+        simp only [sz] at h2
+        obtain ⟨N2, r2, hne2, c2⟩ := ih r (by omega) h1 st
+        dsimp only at c2
+        refine conv_intro (N1+N2) r2 (fun m hm => ?_) hne2
+        rw [interp_vl, c1 m (by omega)]
+        exact c2 m (by omega)
+
+/-! ### The parser's fuel is sufficient -/
+
+theorem scan_snd_le (step : Str → Option (Str × Nat)) : ∀ (i : Str) (k : Nat),
+    (scan step k i).2.length ≤ i.length := by
+  intro i
+  induction i with
+  | nil => intro k; simp [scan]
+  | cons c cs ih =>
+    intro k
+    cases k with
+    | succ k => simp only [scan, List.length_cons]; have := ih k; omega
+    | zero =>
+      simp only [scan]
+      split
+      · simp
+      · rename_i out n _
+        simp only [List.length_cons]; have := ih (n - 1); omega
+
+theorem scan_progress (step : Str → Option (Str × Nat)) (i : Str)
+    (h : (scan step 0 i).1 ≠ []) : (scan step 0 i).2.length < i.length := by
+  cases i with
+  | nil => simp [scan] at h
+  | cons c cs =>
+    simp only [scan] at h ⊢
+    split
+    · rename_i hs; simp [hs] at h
+    · rename_i out n _
+      simp only [List.length_cons]; have := scan_snd_le step cs (n - 1); omega
+
+theorem stringP_progress {i s rest : Str} (h : stringP i = some (s, rest)) :
+    rest.length < i.length := by
+  unfold stringP at h
+  split at h
+  · rename_i r hd
+    simp only [Option.some.injEq] at h; subst h
+    unfold doubleEscape at hd
+    split at hd
+    · split at hd
+      · simp only [Option.some.injEq, Prod.mk.injEq] at hd; obtain ⟨_, rfl⟩ := hd; simp; omega
+      · simp at hd
+    · simp at hd
+  · split at h
+    · rename_i r hd
+      simp only [Option.some.injEq] at h; subst h
+      unfold refEscapeOpen at hd
+      split at hd
+      · simp only [Option.some.injEq, Prod.mk.injEq] at hd; obtain ⟨_, rfl⟩ := hd; simp; omega
+      · simp at hd
+    · split at h
+      · rename_i r hd
+        simp only [Option.some.injEq] at h; subst h
+        unfold invEscapeOpen at hd
+        split at hd
+        · simp only [Option.some.injEq, Prod.mk.injEq] at hd; obtain ⟨_, rfl⟩ := hd; simp; omega
+        · simp at hd
+      · simp only at h
+        split at h
+        · simp at h
+        · rename_i hne
+          simp only [Option.some.injEq] at h
+          have := scan_progress contentStep i (by
+            intro he; apply hne; unfold content; rw [he]; rfl)
+          unfold content at h
+          rw [h] at this; exact this
+
+/-- What the induction on the parser fuel carries. -/
+structure RefAt (n : Nat) : Prop where
+  refNoFuel : ∀ i, i.length + 1 ≤ n → reference n i ≠ .error .fuel
+  refShrinks : ∀ i t rest, reference n i = .ok (t, rest) → rest.length < i.length
+  itemsNoFuel : ∀ i, i.length + 2 ≤ n → refItems n i ≠ .error .fuel
+  itemsShrinks : ∀ i ts rest, refItems n i = .ok (ts, rest) → rest.length ≤ i.length
+
+theorem refAt_zero : RefAt 0 := by
+  constructor
+  · intro i h; omega
+  · intro i t rest h; simp [reference] at h
+  · intro i h; omega
+  · intro i ts rest h; simp [refItems] at h
+
+theorem refAt_succ {n : Nat} (ih : RefAt n) : RefAt (n+1) := by
+  constructor
+  · intro i hlen
+    unfold reference
+    split
+    · omega
+    · rename_i m rest heq
+      have hm : m = n := by omega
+      subst hm
+      have hB := ih.itemsNoFuel rest (by simp only [List.length_cons] at hlen; omega)
+      split
+      · rename_i e he; intro hc; simp only [Except.error.injEq] at hc; exact hB (hc ▸ he)
+      · simp
+      · simp
+      · simp
+    · simp
+  · intro i t rest h
+    unfold reference at h
+    split at h
+    · simp at h
+    · rename_i m rest0 heq
+      have hm : m = n := by omega
+      subst hm
+      split at h
+      · simp at h
+      · simp at h
+      · rename_i ts rest' he
+        simp only [Except.ok.injEq, Prod.mk.injEq] at h
+        obtain ⟨_, rfl⟩ := h
+        have := ih.itemsShrinks _ _ _ he
+        simp only [List.length_cons] at this ⊢; omega
+      · simp at h
+    · simp at h
+  · intro i hlen
+    unfold refItems
+    have hA := ih.refNoFuel i (by omega)
+    split
+    · rename_i he; exact absurd he hA
+    · rename_i t rest he
+      have hs := ih.refShrinks _ _ _ he
+      have hB := ih.itemsNoFuel rest (by omega)
+      split
+      · rename_i e he2; intro hc; simp only [Except.error.injEq] at hc; exact hB (hc ▸ he2)
+      · simp
+    · simp only
+      split
+      · rename_i hne
+        have hs := scan_progress refStringStep i (by
+          intro he; unfold refString at hne; rw [he] at hne; simp at hne)
+        have hB := ih.itemsNoFuel (refString i).2 (by unfold refString; omega)
+        split
+        · rename_i e he2; intro hc; simp only [Except.error.injEq] at hc; exact hB (hc ▸ he2)
+        · simp
+      · simp
+  · intro i ts rest h
+    unfold refItems at h
+    split at h
+    · simp at h
+    · rename_i t rest1 he
+      have hs := ih.refShrinks _ _ _ he
+      split at h
+      · simp at h
+      · rename_i ts' rest' he2
+        simp only [Except.ok.injEq, Prod.mk.injEq] at h
+        obtain ⟨_, rfl⟩ := h
+        have := ih.itemsShrinks _ _ _ he2; omega
+    · simp only at h
+      split at h
+      · split at h
+        · simp at h
+        · rename_i ts' rest' he2
+          simp only [Except.ok.injEq, Prod.mk.injEq] at h
+          obtain ⟨_, rfl⟩ := h
+          have h1 := ih.itemsShrinks _ _ _ he2
+          have h2 := scan_snd_le refStringStep i 0
+          unfold refString at h1; omega
+      · simp only [Except.ok.injEq, Prod.mk.injEq] at h
+        obtain ⟨_, rfl⟩ := h; exact Nat.le_refl _
+
+theorem refAt : ∀ n, RefAt n := by
+  intro n; induction n with
+  | zero => exact refAt_zero
+  | succ n ih => exact refAt_succ ih
+
+theorem items_noFuel : ∀ (n : Nat) (i : Str), i.length + 2 ≤ n → items n i ≠ .error .fuel := by
+  intro n
+  induction n with
+  | zero => intro i h; omega
+  | succ n ih =>
+    intro i hlen
+    unfold items
+    have hA := (refAt n).refNoFuel i (by omega)
+    split
+    · rename_i he; exact absurd he hA
+    · rename_i t rest he
+      have hs := (refAt n).refShrinks _ _ _ he
+      have hB := ih rest (by omega)
+      split
+      · rename_i e he2; intro hc; simp only [Except.error.injEq] at hc; exact hB (hc ▸ he2)
+      · simp
+    · split
+      · rename_i s rest hsP
+        have hs := stringP_progress hsP
+        have hB := ih rest (by omega)
+        split
+        · rename_i e he2; intro hc; simp only [Except.error.injEq] at hc; exact hB (hc ▸ he2)
+        · simp
+      · simp
+
+theorem parse_noFuel (s : Str) : Token.parse s ≠ .error .fuel := by
+  unfold Token.parse
+  split
+  · simp
+  · have h := items_noFuel (parseFuel s) s (by unfold parseFuel; omega)
+    have h2 : parseRefF (parseFuel s) s ≠ .error .fuel := by
+      unfold parseRefF
+      split
+      · rename_i e he; intro hc; simp only [Except.error.injEq] at hc; exact h (hc ▸ he)
+      · simp
+      · split <;> simp
+      · simp
+    split
+    · simp
+    · simp
+    · rename_i he; exact absurd he h2
+
+/-- The parser's own fuel (`parseFuel`) is always sufficient. -/
+def ParserTotal : Prop := ∀ s : Str, Token.parse s ≠ .error .fuel
+
+theorem parserTotal : ParserTotal := parse_noFuel
+
+/-- All 13 evaluator functions settle, for every argument, when started in state `st`. -/
+structure AllConv (root : Mapping) (st : RState) : Prop where
+  interp : ∀ v, Conv (fun n => interp n root v st)
+  interpL : ∀ l idx, Conv (fun n => interpL n root l idx st)
+  interpEs : ∀ es ck ok acc, Conv (fun n => interpEs n root es ck ok st acc)
+  interpVl : ∀ l r, Conv (fun n => interpVl n root l r st)
+  tokRender : ∀ t, Conv (fun n => tokRender n root t st)
+  tokResolve : ∀ t, Conv (fun n => tokResolve n root t st)
+  descend : ∀ v ks p, Conv (fun n => descend n root v ks st p)
+  finalLoop : ∀ v, Conv (fun n => finalLoop n root v st)
+  interpStrOrVl : ∀ v, Conv (fun n => interpStrOrVl n root v st)
+  layersStr : ∀ l, Conv (fun n => layersStr n root l st)
+  slice : ∀ ts, Conv (fun n => slice n root ts st)
+  strLoop : ∀ v, Conv (fun n => strLoop n root v st)
+  sliceFinish : ∀ v, Conv (fun n => sliceFinish n root v st)
+
+/-- `st` is within `d` levels of the point where no reference can be resolved any more. -/
+def Lvl (d : Nat) (st : RState) : Prop := maxDepth + 1 - st.depth ≤ d
+
+theorem deeper {d : Nat} {st st' : RState} (hl : Lvl d st) (h1 : st.depth + 1 ≤ maxDepth)
+    (h2 : st.depth + 1 ≤ st'.depth) : maxDepth + 1 - st'.depth < d := by
+  unfold Lvl at hl; omega
+
+theorem Lvl.mono {d : Nat} {st st' : RState} (hl : Lvl d st) (h : st.depth ≤ st'.depth) : Lvl d st' := by
+  unfold Lvl at hl ⊢; omega
+
+/-- A reference token: everything it calls runs strictly deeper. -/
+theorem conv_tokResolve_ref {root : Mapping} {d : Nat}
+    (IH : ∀ st', maxDepth + 1 - st'.depth < d → AllConv root st')
+    (parts : List Token) (st : RState) (hl : Lvl d st) :
+    Conv (fun n => tokResolve n root (.ref parts) st) := by
+  by_cases hd : st.depth + 1 > maxDepth
+  · refine conv_intro 0 (.error (.depth ({ st with depth := st.depth + 1 } : RState).curKey))
+      (fun m _ => ?_) (by simp)
+    rw [tokResolve_ref]; simp only [hd, if_true]
+  · have hd1 : st.depth + 1 ≤ maxDepth := by omega
+    have A1 := IH { st with depth := st.depth + 1 } (deeper hl hd1 (Nat.le_refl _))
+    obtain ⟨N1, r1, hne1, c1⟩ := A1.slice parts
+    dsimp only at c1
+    rcases r1 with e | path
+    · refine conv_intro N1 (.error e) (fun m hm => ?_) (err_ne hne1)
+      rw [tokResolve_ref, c1 m hm]; simp only [hd, if_false]
+    · by_cases hs : path ∈ st.seen
+      · refine conv_intro N1 (.error .loop) (fun m hm => ?_) (by simp)
+        rw [tokResolve_ref, c1 m hm]; simp only [hd, if_false, hs, if_true]
+      · cases hsp : splitColon path with
+        | nil =>
+          refine conv_intro N1 (.error (.panic .splitEmpty)) (fun m hm => ?_) (by simp)
+          rw [tokResolve_ref, c1 m hm]; simp only [hd, if_false, hs, hsp]
+        | cons k0 segs =>
+          cases hg : root.get (.str k0) with
+          | none =>
+            refine conv_intro N1 (.error (.missingKey path k0
+              ({ st with depth := st.depth + 1, seen := path :: st.seen } : RState).curKey))
+              (fun m hm => ?_) (by simp)
+            rw [tokResolve_ref, c1 m hm]; simp only [hd, if_false, hs, hsp, hg]
+          | some v0 =>
+            have A2 := IH { st with depth := st.depth + 1, seen := path :: st.seen }
+              (deeper hl hd1 (Nat.le_refl _))
+            obtain ⟨N2, r2, hne2, c2⟩ := A2.descend v0 segs path
+            dsimp only at c2
+            rcases r2 with e | ⟨v, st3⟩
+            · refine conv_intro (N1+N2) (.error e) (fun m hm => ?_) (err_ne hne2)
+              rw [tokResolve_ref, c1 m (by omega)]
+              simp only [hd, if_false, hs, hsp, hg, c2 m (by omega)]
+            · have hdm := (descend_depth_mono (c2 N2 (Nat.le_refl _))).1
+              have A3 := IH st3 (deeper hl hd1 hdm)
+              obtain ⟨N3, r3, hne3, c3⟩ := A3.finalLoop v
+              dsimp only at c3
+              refine conv_intro (N1+N2+N3) r3 (fun m hm => ?_) hne3
+              rw [tokResolve_ref, c1 m (by omega)]
+              simp only [hd, if_false, hs, hsp, hg, c2 m (by omega)]
+              exact c3 m (by omega)
+
+theorem strLoop_nonstr {v : Value} (hv : v.isStr = false) (root : Mapping) (st : RState) :
+    ∀ m, 1 ≤ m → strLoop m root v st = .ok (v, st) := by
+  intro m hm
+  obtain ⟨k, rfl⟩ : ∃ k, m = k + 1 := ⟨m - 1, by omega⟩
+  rw [strLoop_succ]; simp [hv]
+
+theorem finalLoop_done {v : Value} (h1 : v.isStr = false) (h2 : v.isVl = false) (root : Mapping)
+    (st : RState) : ∀ m, 1 ≤ m → finalLoop m root v st = .ok (v, st) := by
+  intro m hm
+  obtain ⟨k, rfl⟩ : ∃ k, m = k + 1 := ⟨m - 1, by omega⟩
+  rw [finalLoop_succ]; simp [h1, h2]
+
+theorem sliceFinish_lit (s : Str) (root : Mapping) (st : RState) :
+    ∀ m, 1 ≤ m → sliceFinish m root (.lit s) st = .ok s := by
+  intro m hm
+  obtain ⟨k, rfl⟩ : ∃ k, m = k + 1 := ⟨m - 1, by omega⟩
+  rw [sliceFinish_succ]; simp [Value.isMap, Value.isSeq, rawString]
+
+/-- The rest of one `interpolate_token_slice` iteration after the piece has been resolved to
+a literal: no further evaluator call is made. -/
+theorem conv_slice_tail_lit {root : Mapping} {st : RState} (t : Token) (ts : List Token)
+    (ht : Conv (fun n => tokResolve n root t st))
+    (hlit : ∀ n v st', tokResolve n root t st = .ok (v, st') → (∃ s, v = .lit s) ∧ st' = st)
+    (hrest : Conv (fun n => slice n root ts st)) :
+    Conv (fun n => slice n root (t :: ts) st) := by
+  obtain ⟨N1, r1, hne1, c1⟩ := ht
+  dsimp only at c1
+  rcases r1 with e | ⟨v, st'⟩
+  · refine conv_intro N1 (.error e) (fun m hm => ?_) (err_ne hne1)
+    rw [slice_cons, c1 m hm]
+  · obtain ⟨⟨s, rfl⟩, rfl⟩ := hlit N1 v st' (c1 N1 (Nat.le_refl _))
+    obtain ⟨N2, r2, hne2, c2⟩ := hrest
+    dsimp only at c2
+    rcases r2 with e | s'
+    · refine conv_intro (N1+N2+1) (.error e) (fun m hm => ?_) hne2
+      rw [slice_cons, c1 m (by omega)]
+      simp only [strLoop_nonstr (v := .lit s) rfl root st' m (by omega),
+        sliceFinish_lit s root st' m (by omega), c2 m (by omega)]
+    · refine conv_intro (N1+N2+1) (.ok (s ++ s')) (fun m hm => ?_) (by simp)
+      rw [slice_cons, c1 m (by omega)]
+      simp only [strLoop_nonstr (v := .lit s) rfl root st' m (by omega),
+        sliceFinish_lit s root st' m (by omega), c2 m (by omega)]
+
+/-- One `interpolate_token_slice` iteration whose piece is a reference: the loops after the
+resolution run in the (strictly deeper) state the resolution returned. -/
+theorem conv_slice_cons_ref {root : Mapping} {d : Nat}
+    (IH : ∀ st', maxDepth + 1 - st'.depth < d → AllConv root st')
+    (parts : List Token) (ts : List Token) (st : RState) (hl : Lvl d st)
+    (hrest : Conv (fun n => slice n root ts st)) :
+    Conv (fun n => slice n root (.ref parts :: ts) st) := by
+  obtain ⟨N1, r1, hne1, c1⟩ := conv_tokResolve_ref IH parts st hl
+  dsimp only at c1
+  rcases r1 with e | ⟨v, st'⟩
+  · refine conv_intro N1 (.error e) (fun m hm => ?_) (err_ne hne1)
+    rw [slice_cons, c1 m hm]
+  · obtain ⟨hd1, hd2⟩ := tokResolve_ref_depth_lt (c1 N1 (Nat.le_refl _))
+    have A1 := IH st' (deeper hl hd2 hd1)
+    obtain ⟨N2, r2, hne2, c2⟩ := A1.strLoop v
+    dsimp only at c2
+    rcases r2 with e | ⟨v', st''⟩
+    · refine conv_intro (N1+N2) (.error e) (fun m hm => ?_) (err_ne hne2)
+      rw [slice_cons, c1 m (by omega)]; simp only [c2 m (by omega)]
+    · have hd3 := (strLoop_depth_mono (c2 N2 (Nat.le_refl _))).1
+      have A2 := IH st'' (deeper hl hd2 (Nat.le_trans hd1 hd3))
+      obtain ⟨N3, r3, hne3, c3⟩ := A2.sliceFinish v'
+      dsimp only at c3
+      rcases r3 with e | s
+      · refine conv_intro (N1+N2+N3) (.error e) (fun m hm => ?_) (err_ne hne3)
+        rw [slice_cons, c1 m (by omega)]; simp only [c2 m (by omega), c3 m (by omega)]
+      · obtain ⟨N4, r4, hne4, c4⟩ := hrest
+        dsimp only at c4
+        rcases r4 with e | s'
+        · refine conv_intro (N1+N2+N3+N4) (.error e) (fun m hm => ?_) hne4
+          rw [slice_cons, c1 m (by omega)]
+          simp only [c2 m (by omega), c3 m (by omega), c4 m (by omega)]
+        · refine conv_intro (N1+N2+N3+N4) (.ok (s ++ s')) (fun m hm => ?_) (by simp)
+          rw [slice_cons, c1 m (by omega)]
+          simp only [c2 m (by omega), c3 m (by omega), c4 m (by omega)]
+
+theorem tokResolve_lit_shape {n : Nat} {root : Mapping} {s : Str} {st : RState} {v : Value}
+    {st' : RState} (h : tokResolve n root (.lit s) st = .ok (v, st')) :
+    (∃ s, v = .lit s) ∧ st' = st := by
+  cases n with
+  | zero => simp [tokResolve] at h
+  | succ n =>
+    simp only [tokResolve_lit, Except.ok.injEq, Prod.mk.injEq] at h
+    exact ⟨⟨s, h.1.symm⟩, h.2.symm⟩
+
+theorem tokResolve_combined_shape {n : Nat} {root : Mapping} {ts : List Token} {st : RState}
+    {v : Value} {st' : RState} (h : tokResolve n root (.combined ts) st = .ok (v, st')) :
+    (∃ s, v = .lit s) ∧ st' = st := by
+  cases n with
+  | zero => simp [tokResolve] at h
+  | succ n =>
+    rw [tokResolve_combined] at h
+    cases hc : slice n root ts st with
+    | error e => simp [hc] at h
+    | ok s =>
+      simp only [hc, Except.ok.injEq, Prod.mk.injEq] at h
+      exact ⟨⟨s, h.1.symm⟩, h.2.symm⟩
+
+theorem conv_slice {root : Mapping} {d : Nat}
+    (IH : ∀ st', maxDepth + 1 - st'.depth < d → AllConv root st')
+    (st : RState) (hl : Lvl d st) : ∀ (ts : List Token),
+    (∀ t, t ∈ ts → Conv (fun n => tokResolve n root t st)) →
+    Conv (fun n => slice n root ts st) := by
+  intro ts
+  induction ts with
+  | nil => intro _; exact conv_intro 0 (.ok []) (fun m _ => rfl) (by simp)
+  | cons t ts ih =>
+    intro ht
+    have hrest := ih (fun t' h' => ht t' (List.mem_cons_of_mem _ h'))
+    cases t with
+    | ref parts => exact conv_slice_cons_ref IH parts ts st hl hrest
+    | lit s =>
+      exact conv_slice_tail_lit _ ts (ht _ (by simp)) (fun n v st' h => tokResolve_lit_shape h) hrest
+    | combined ts' =>
+      exact conv_slice_tail_lit _ ts (ht _ (by simp)) (fun n v st' h => tokResolve_combined_shape h) hrest
+
+theorem conv_tokResolve {root : Mapping} {d : Nat}
+    (IH : ∀ st', maxDepth + 1 - st'.depth < d → AllConv root st') :
+    ∀ (k : Nat) (t : Token), sizeOf t ≤ k → ∀ st, Lvl d st →
+      Conv (fun n => tokResolve n root t st) := by
+  intro k
+  induction k with
+  | zero => intro t ht; cases t <;> simp at ht <;> omega
+  | succ k ih =>
+    intro t ht st hl
+    cases t with
+    | lit s => exact conv_intro 0 (.ok (.lit s, st)) (fun m _ => rfl) (by simp)
+    | ref parts => exact conv_tokResolve_ref IH parts st hl
+    | combined ts =>
+      simp only [Token.combined.sizeOf_spec] at ht
+      obtain ⟨N1, r1, hne1, c1⟩ := conv_slice IH st hl ts
+        (fun t' h' => ih t' (by have := List.sizeOf_lt_of_mem h'; omega) st hl)
+      dsimp only at c1
+      rcases r1 with e | s
+      · refine conv_intro N1 (.error e) (fun m hm => ?_) (err_ne hne1)
+        rw [tokResolve_combined, c1 m hm]
+      · refine conv_intro N1 (.ok (.lit s, st)) (fun m hm => ?_) (by simp)
+        rw [tokResolve_combined, c1 m hm]
+
+theorem conv_tokRender {root : Mapping} {d : Nat}
+    (IH : ∀ st', maxDepth + 1 - st'.depth < d → AllConv root st')
+    (t : Token) (st : RState) (hl : Lvl d st) : Conv (fun n => tokRender n root t st) := by
+  obtain ⟨N1, r1, hne1, c1⟩ := conv_tokResolve IH _ t (Nat.le_refl _) st hl
+  dsimp only at c1
+  rcases r1 with e | ⟨v, st'⟩
+  · refine conv_intro N1 (.error e) (fun m hm => ?_) (err_ne hne1)
+    rw [tokRender_succ, c1 m hm]
+  · cases t with
+    | ref parts =>
+      obtain ⟨hd1, hd2⟩ := tokResolve_ref_depth_lt (c1 N1 (Nat.le_refl _))
+      obtain ⟨N2, r2, hne2, c2⟩ := (IH st' (deeper hl hd2 hd1)).interp v
+      dsimp only at c2
+      refine conv_intro (N1+N2) r2 (fun m hm => ?_) hne2
+      rw [tokRender_succ, c1 m (by omega)]
+      exact c2 m (by omega)
+    | lit s =>
+      cases hr : rawString v with
+      | error e =>
+        refine conv_intro N1 (.error e) (fun m hm => ?_) (err_ne_of (rawString_noFuel _) hr)
+        rw [tokRender_succ, c1 m hm]; simp only [hr]
+      | ok s' =>
+        refine conv_intro N1 (.ok (.lit s', st')) (fun m hm => ?_) (by simp)
+        rw [tokRender_succ, c1 m hm]; simp only [hr]
+    | combined ts =>
+      cases hr : rawString v with
+      | error e =>
+        refine conv_intro N1 (.error e) (fun m hm => ?_) (err_ne_of (rawString_noFuel _) hr)
+        rw [tokRender_succ, c1 m hm]; simp only [hr]
+      | ok s' =>
+        refine conv_intro N1 (.ok (.lit s', st')) (fun m hm => ?_) (by simp)
+        rw [tokRender_succ, c1 m hm]; simp only [hr]
+
+/-- Values at level `d`, by induction on the size bound. -/
+theorem conv_interp {root : Mapping} {d : Nat} (hp : ParserTotal)
+    (IH : ∀ st', maxDepth + 1 - st'.depth < d → AllConv root st') :
+    ∀ (b : Nat) (v : Value), sz v ≤ b → ∀ st, Lvl d st → Conv (fun n => interp n root v st) := by
+  intro b
+  induction b with
+  | zero => intro v hb; have := sz_pos v; omega
+  | succ b ih =>
+    intro v hb st hl
+    cases v with
+    | null => exact conv_intro 0 (.ok (.null, st)) (fun m _ => rfl) (by simp)
+    | bool x => exact conv_intro 0 (.ok (.bool x, st)) (fun m _ => rfl) (by simp)
+    | num x => exact conv_intro 0 (.ok (.num x, st)) (fun m _ => rfl) (by simp)
+    | lit x => exact conv_intro 0 (.ok (.lit x, st)) (fun m _ => rfl) (by simp)
+    | str s =>
+      cases hps : Token.parse s with
+      | error e =>
+        refine conv_intro 0 (.error e) (fun m _ => ?_) (err_ne_of (hp s) hps)
+        rw [interp_str, hps]
+      | ok o =>
+        cases o with
+        | none =>
+          refine conv_intro 0 (.ok (.lit s, st)) (fun m _ => ?_) (by simp)
+          rw [interp_str, hps]
+        | some t =>
+          obtain ⟨N1, r1, hne1, c1⟩ := conv_tokRender IH t st hl
+          dsimp only at c1
+          refine conv_intro N1 r1 (fun m hm => ?_) hne1
+          rw [interp_str, hps]; exact c1 m hm
+    | map es ck ok =>
+      simp only [sz] at hb
+      obtain ⟨N1, r1, hne1, c1⟩ := convEs (root := root) (ck := ck) (ok := ok) (st := st) es
+        (fun k w hw st' hst' => ih w (by have := mem_szEs hw; omega) st'
+          (hl.mono (Nat.le_of_eq hst'.symm))) {}
+      dsimp only at c1
+      rcases r1 with e | m
+      · refine conv_intro N1 (.error e) (fun m hm => ?_) (err_ne hne1)
+        rw [interp_map, c1 m hm]
+      · refine conv_intro N1 (.ok (m.toValue, st)) (fun m hm => ?_) (by simp)
+        rw [interp_map, c1 m hm]
+    | seq l =>
+      simp only [sz] at hb
+      obtain ⟨N1, r1, hne1, c1⟩ := convL (root := root) (st := st) l
+        (fun w hw st' hst' => ih w (by have := mem_szL hw; omega) st'
+          (hl.mono (Nat.le_of_eq hst'.symm))) 0
+      dsimp only at c1
+      rcases r1 with e | l'
+      · refine conv_intro N1 (.error e) (fun m hm => ?_) (err_ne hne1)
+        rw [interp_seq, c1 m hm]
+      · refine conv_intro N1 (.ok (.seq l', st)) (fun m hm => ?_) (by simp)
+        rw [interp_seq, c1 m hm]
+    | vl l =>
+      simp only [sz] at hb
+      have hlen := szVl_eq l
+      obtain ⟨N1, r1, hne1, c1⟩ := convVl (root := root) (st := st) l
+        (fun w hw => ih w (by have := mem_szL hw; omega) st hl) .null
+      dsimp only at c1
+      rcases r1 with e | r
+      · refine conv_intro N1 (.error e) (fun m hm => ?_) (err_ne hne1)
+        rw [interp_vl, c1 m hm]
+      · have h1 := (outAt N1).interpVl _ _ _ _ _ (c1 N1 (Nat.le_refl _)) (by simp [StrFree])
+        obtain ⟨N2, r2, hne2, c2⟩ := conv_strFree root (sz r) r (Nat.le_refl _) h1 st
+        dsimp only at c2
+        refine conv_intro (N1+N2) r2 (fun m hm => ?_) hne2
+        rw [interp_vl, c1 m (by omega)]
+        exact c2 m (by omega)
+
+section Level
+variable {root : Mapping} {d : Nat}
+
+theorem conv_strLoop (hv : ∀ v st, Lvl d st → Conv (fun n => interp n root v st))
+    (v : Value) (st : RState) (hl : Lvl d st) : Conv (fun n => strLoop n root v st) := by
+  by_cases hs : v.isStr = true
+  · obtain ⟨N1, r1, hne1, c1⟩ := hv v st hl
+    dsimp only at c1
+    rcases r1 with e | ⟨v', st'⟩
+    · refine conv_intro N1 (.error e) (fun m hm => ?_) (err_ne hne1)
+      rw [strLoop_succ, c1 m hm]; simp only [hs, if_true]
+    · have h1 := strFree_isStr ((outAt N1).interp _ _ _ _ _ (c1 N1 (Nat.le_refl _))).1
+      refine conv_intro (N1+1) (.ok (v', st')) (fun m hm => ?_) (by simp)
+      rw [strLoop_succ, c1 m (by omega)]; simp only [hs, if_true]
+      exact strLoop_nonstr h1 root st' m (by omega)
+  · have hs' : v.isStr = false := by simpa using hs
+    exact conv_intro 0 (.ok (v, st)) (fun m _ => strLoop_nonstr hs' root st (m+1) (by omega)) (by simp)
+
+theorem conv_finalLoop (hv : ∀ v st, Lvl d st → Conv (fun n => interp n root v st))
+    (v : Value) (st : RState) (hl : Lvl d st) : Conv (fun n => finalLoop n root v st) := by
+  by_cases hs : (v.isStr || v.isVl) = true
+  · obtain ⟨N1, r1, hne1, c1⟩ := hv v st hl
+    dsimp only at c1
+    rcases r1 with e | ⟨v', st'⟩
+    · refine conv_intro N1 (.error e) (fun m hm => ?_) (err_ne hne1)
+      rw [finalLoop_succ, c1 m hm]; simp only [hs, if_true]
+    · have h0 := (outAt N1).interp _ _ _ _ _ (c1 N1 (Nat.le_refl _))
+      refine conv_intro (N1+1) (.ok (v', st')) (fun m hm => ?_) (by simp)
+      rw [finalLoop_succ, c1 m (by omega)]; simp only [hs, if_true]
+      exact finalLoop_done (strFree_isStr h0.1) h0.2 root st' m (by omega)
+  · have hs' : (v.isStr || v.isVl) = false := by simpa using hs
+    simp only [Bool.or_eq_false_iff] at hs'
+    exact conv_intro 0 (.ok (v, st))
+      (fun m _ => finalLoop_done hs'.1 hs'.2 root st (m+1) (by omega)) (by simp)
+
+theorem conv_sliceFinish (hv : ∀ v st, Lvl d st → Conv (fun n => interp n root v st))
+    (v : Value) (st : RState) (hl : Lvl d st) : Conv (fun n => sliceFinish n root v st) := by
+  by_cases hs : (v.isMap || v.isSeq) = true
+  · obtain ⟨N1, r1, hne1, c1⟩ := hv v st hl
+    dsimp only at c1
+    rcases r1 with e | ⟨v', st'⟩
+    · refine conv_intro N1 (.error e) (fun m hm => ?_) (err_ne hne1)
+      rw [sliceFinish_succ, c1 m hm]; simp only [hs, if_true]
+    · cases hfl : flat v' st' with
+      | error e =>
+        refine conv_intro N1 (.error e) (fun m hm => ?_) (err_ne_of (flat_noFuel _ _) hfl)
+        rw [sliceFinish_succ, c1 m hm]; simp only [hs, if_true, hfl]
+      | ok v'' =>
+        refine conv_intro N1 (rawString v'') (fun m hm => ?_) (rawString_noFuel _)
+        rw [sliceFinish_succ, c1 m hm]; simp only [hs, if_true, hfl]
+  · have hs' : (v.isMap || v.isSeq) = false := by simpa using hs
+    refine conv_intro 0 (rawString v) (fun m _ => ?_) (rawString_noFuel _)
+    rw [sliceFinish_succ]; simp only [hs', Bool.false_eq_true, if_false]
+
+theorem conv_interpStrOrVl (hv : ∀ v st, Lvl d st → Conv (fun n => interp n root v st))
+    (v : Value) (st : RState) (hl : Lvl d st) : Conv (fun n => interpStrOrVl n root v st) := by
+  cases v with
+  | str s =>
+    obtain ⟨N1, r1, hne1, c1⟩ := hv (.str s) st hl
+    dsimp only at c1
+    refine conv_intro N1 r1 (fun m hm => ?_) hne1
+    rw [interpStrOrVl_succ]; exact c1 m hm
+  | vl l =>
+    obtain ⟨N1, r1, hne1, c1⟩ := convLayers (root := root) (st := st) l (fun w _ => hv w st hl)
+    dsimp only at c1
+    rcases r1 with e | i
+    · refine conv_intro N1 (.error e) (fun m hm => ?_) (err_ne hne1)
+      rw [interpStrOrVl_succ]; simp only [c1 m hm]
+    · cases hfl : flatVl i .null st with
+      | error e =>
+        refine conv_intro N1 (.error e) (fun m hm => ?_) (err_ne_of (flatVl_noFuel _ _ _) hfl)
+        rw [interpStrOrVl_succ]; simp only [c1 m hm, hfl]
+      | ok r =>
+        refine conv_intro N1 (.ok (r, st)) (fun m hm => ?_) (by simp)
+        rw [interpStrOrVl_succ]; simp only [c1 m hm, hfl]
+  | null => exact conv_intro 0 (.ok (.null, st)) (fun m _ => rfl) (by simp)
+  | bool x => exact conv_intro 0 (.ok (.bool x, st)) (fun m _ => rfl) (by simp)
+  | num x => exact conv_intro 0 (.ok (.num x, st)) (fun m _ => rfl) (by simp)
+  | lit x => exact conv_intro 0 (.ok (.lit x, st)) (fun m _ => rfl) (by simp)
+  | map es ck ok => exact conv_intro 0 (.ok (.map es ck ok, st)) (fun m _ => rfl) (by simp)
+  | seq l => exact conv_intro 0 (.ok (.seq l, st)) (fun m _ => rfl) (by simp)
+
+theorem conv_descend (hv : ∀ v st, Lvl d st → Conv (fun n => interp n root v st)) (p : Str) :
+    ∀ (ks : List Str) (v : Value) (st : RState), Lvl d st →
+      Conv (fun n => descend n root v ks st p) := by
+  intro ks
+  induction ks with
+  | nil => intro v st _; exact conv_intro 0 (.ok (v, st)) (fun m _ => rfl) (by simp)
+  | cons key rest ih =>
+    intro v st hl
+    obtain ⟨N1, r1, hne1, c1⟩ := conv_interpStrOrVl hv v st hl
+    dsimp only at c1
+    rcases r1 with e | ⟨newv, st'⟩
+    · refine conv_intro N1 (.error e) (fun m hm => ?_) (err_ne hne1)
+      rw [descend_cons, c1 m hm]
+    · have hl' : Lvl d st' := hl.mono (interpStrOrVl_depth_mono (c1 N1 (Nat.le_refl _))).1
+      cases newv with
+      | map es ck ok =>
+        cases hlk : lookup (.str key) es with
+        | none =>
+          refine conv_intro N1 (.error (.missingKey p key st'.curKey)) (fun m hm => ?_) (by simp)
+          rw [descend_cons, c1 m hm]; simp only [hlk]
+        | some v' =>
+          obtain ⟨N2, r2, hne2, c2⟩ := ih v' st' hl'
+          dsimp only at c2
+          refine conv_intro (N1+N2) r2 (fun m hm => ?_) hne2
+          rw [descend_cons, c1 m (by omega)]; simp only [hlk]
+          exact c2 m (by omega)
+      | str s =>
+        refine conv_intro N1 (.error (.panic .resolveNewvStrVl)) (fun m hm => ?_) (by simp)
+        rw [descend_cons, c1 m hm]
+      | vl l =>
+        refine conv_intro N1 (.error (.panic .resolveNewvStrVl)) (fun m hm => ?_) (by simp)
+        rw [descend_cons, c1 m hm]
+      | null =>
+        refine conv_intro N1 (.error (.lookupInto p key st'.curKey)) (fun m hm => ?_) (by simp)
+        rw [descend_cons, c1 m hm]
+      | bool x =>
+        refine conv_intro N1 (.error (.lookupInto p key st'.curKey)) (fun m hm => ?_) (by simp)
+        rw [descend_cons, c1 m hm]
+      | num x =>
+        refine conv_intro N1 (.error (.lookupInto p key st'.curKey)) (fun m hm => ?_) (by simp)
+        rw [descend_cons, c1 m hm]
+      | lit x =>
+        refine conv_intro N1 (.error (.lookupInto p key st'.curKey)) (fun m hm => ?_) (by simp)
+        rw [descend_cons, c1 m hm]
+      | seq x =>
+        refine conv_intro N1 (.error (.lookupInto p key st'.curKey)) (fun m hm => ?_) (by simp)
+        rw [descend_cons, c1 m hm]
+
+/-- One level of the outer induction. -/
+theorem allConv_level (hp : ParserTotal)
+    (IH : ∀ st', maxDepth + 1 - st'.depth < d → AllConv root st')
+    (st : RState) (hl : Lvl d st) : AllConv root st := by
+  have hv : ∀ v st, Lvl d st → Conv (fun n => interp n root v st) :=
+    fun v st hl => conv_interp hp IH _ v (Nat.le_refl _) st hl
+  have hsame : ∀ {st' : RState}, st'.depth = st.depth → Lvl d st' :=
+    fun h => hl.mono (Nat.le_of_eq h.symm)
+  exact {
+    interp := fun v => hv v st hl
+    interpL := fun l idx => convL l (fun w _ st' h => hv w st' (hsame h)) idx
+    interpEs := fun es ck ok acc => convEs es (fun _ w _ st' h => hv w st' (hsame h)) acc
+    interpVl := fun l r => convVl l (fun w _ => hv w st hl) r
+    tokRender := fun t => conv_tokRender IH t st hl
+    tokResolve := fun t => conv_tokResolve IH _ t (Nat.le_refl _) st hl
+    descend := fun v ks p => conv_descend hv p ks v st hl
+    finalLoop := fun v => conv_finalLoop hv v st hl
+    interpStrOrVl := fun v => conv_interpStrOrVl hv v st hl
+    layersStr := fun l => convLayers l (fun w _ => hv w st hl)
+    slice := fun ts => conv_slice IH st hl ts
+      (fun t _ => conv_tokResolve IH _ t (Nat.le_refl _) st hl)
+    strLoop := fun v => conv_strLoop hv v st hl
+    sliceFinish := fun v => conv_sliceFinish hv v st hl }
+
+end Level
+
+/-- Every evaluator function settles on a non-fuel outcome, from every state. -/
+theorem allConv (hp : ParserTotal) (root : Mapping) : ∀ (d : Nat) (st : RState), Lvl d st → AllConv root st := by
+  intro d
+  induction d using Nat.strongRecOn with
+  | _ d ih =>
+    intro st hl
+    exact allConv_level hp (fun st' h' => ih _ h' st' (Nat.le_refl _)) st hl
+
+/-- **Termination**: for every root, value and state some amount of fuel suffices. -/
+theorem interp_terminates (root : Mapping) (v : Value) (st : RState) :
+    ∃ n, interp n root v st ≠ .error .fuel :=
+  ((allConv parserTotal root _ st (Nat.le_refl _)).interp v).exists_ne
+
+end Termination
 
 end Reclass
